@@ -173,4 +173,12 @@ CHECKS = {
                      "the MessageStore is constructed without an orbit-db log behind it: entries are built by the harness, the two event emitters record what is emitted",
                      "sequentially consistent interleavings at synchronisation operations; unlock is not a preemption point"],
     ),
+    "C19": dict(
+        harness="root", run="TestVerifC19", level="model_checking", crash_is_violation=True,
+        technique="explicit-state search over service states (activation histories, canonical = set of active groups) x exhaustive request catalogue for every method of the protocol service invoked in-process on a real service, plus the decode/decrypt helpers on all byte strings of length <= 2 and every truncation of valid inputs",
+        rule="methods are read by reflection from ProtocolServiceServer; per request field: bytes in {nil, empty, 1B, 31B, 32B non-key, 32B unknown key, 33B, 64KiB, known value(s)}, sub-messages in {nil, empty, valid with each bytes field removed, valid}, enums {999,0,1}, bools, strings, ints; all combinations over at most 3 varying fields; states = distinct service states, transitions = requests issued; classes = (state, method, error)",
+        assumptions=["methods are invoked on the service object (not through the gRPC transport) so that a panic is caught per request; a panic in a background goroutine kills the harness process and is reported as a process crash",
+                     "streaming methods and methods that dial out get a 250 ms context; requests that would need an external server are exercised up to the dial",
+                     "service states to depth 2 (quick) / 3 over {deactivate/activate account group, create/deactivate a multi-member group, add a contact / deactivate its group}"],
+    ),
 }
